@@ -24,7 +24,7 @@ import (
 var c09TypeAnns = []string{"", "@Deprecated", "@SuppressWarnings(\"unchecked\")", "@SuppressWarnings({\"a\", \"b\"})", "@Table(name = \"t\", indexes = @Index(columnList = \"c\"))",
 	"@javax.annotation.Generated(value = \"x\")", "@Retry(MAX)", "@Retry(Config.MAX)", "@Anno(1 + 2)", "@Anno(value = {})", "@Anno(Foo.class)", "@Anno(@Inner)", "@RequestMapping(BASE)", "@RequestMapping(value = BASE + \"/x\")", "@RequestMapping(value = {\"/a\", \"/b\"})", "@RestController @RequestMapping", "@RestController @RequestMapping(A)", "@Controller @RequestMapping(value = B)", "@RestController @RequestMapping(\"\")"}
 var c09TypeParams = []string{"", "<T>", "<T extends Comparable<T>>", "<K, V extends java.util.List<? super K>>", "<T extends Number & Comparable<T>>"}
-var c09Supers = []string{"", " extends Base", " extends Base<String>", " implements Runnable", " extends a.b.Base implements java.io.Serializable, Comparable<Unit>", " implements Outer.Inner<int[]>"}
+var c09Supers = []string{"", " extends Base", " extends Base<String>", " implements Runnable", " extends a.b.Base implements java.io.Serializable, Comparable<Unit>", " implements Outer.Inner<int[]>", " extends a.b.Base<String>", " extends Base<String>.Inner"}
 
 var c09Members = []string{
 	"int plain;",
@@ -74,6 +74,12 @@ var c09Members = []string{
 	"record Point(int x, int y) {\n    static int origin = 0;\n    int sum() {\n        return x + y;\n    }\n}",
 	";",
 	"java.lang.@Deprecated int altAnnotated1;",
+	// the same form in front of a method's result type, a parameter type and a local's type
+	"public java.lang.@Deprecated String altAnnotatedResult() {\n    return null;\n}",
+	"void altAnnotatedParameter(java.lang.@Deprecated String p) {\n    java.lang.@Deprecated String l = null;\n}",
+	// a controller whose mapped handlers declare a receiver parameter (alone, and in front of a request body)
+	"@RestController\nstatic class ReceiverCtl {\n    @GetMapping(\"/only\")\n    public String only(ReceiverCtl this) {\n        return \"\";\n    }\n    @PostMapping(\"/body\")\n    public String body(ReceiverCtl this, @RequestBody Unit u) {\n        return \"\";\n    }\n}",
+	"@GetMapping(\"/mapped\")\npublic String mappedWithReceiver(Unit this, int x) {\n    return \"\";\n}",
 	"public java.lang.@Deprecated String altAnnotated2;",
 	"java.util.@Deprecated List<java.lang.@Deprecated String> altAnnotated3;",
 	"void lambdaVar() {\n    java.util.function.BiFunction<Integer, Integer, Integer> f2 = (var p, var q) -> p + q;\n}",
